@@ -45,16 +45,23 @@ class Timeout(Exception):
 
 @contextlib.contextmanager
 def time_limit(seconds: int):
+    """Hang detection that does not depend on how busy the machine is: the limit is on the CPU time this process consumes (ITIMER_PROF - a
+    non-terminating loop burns CPU), with a far larger wall-clock backstop (ITIMER_REAL) for the unlikely blocked-forever case.  A wall-clock
+    limit alone turned heavy machine load into `HANG` verdicts (false alarms seen while nine sweeps ran at once)."""
     def h(signum, frame):  # noqa: ARG001
         raise Timeout()
 
-    old = signal.signal(signal.SIGALRM, h)
-    signal.alarm(seconds)
+    old_prof = signal.signal(signal.SIGPROF, h)
+    old_alrm = signal.signal(signal.SIGALRM, h)
+    signal.setitimer(signal.ITIMER_PROF, float(seconds))
+    signal.setitimer(signal.ITIMER_REAL, float(max(120, seconds * 30)))
     try:
         yield
     finally:
-        signal.alarm(0)
-        signal.signal(signal.SIGALRM, old)
+        signal.setitimer(signal.ITIMER_PROF, 0)
+        signal.setitimer(signal.ITIMER_REAL, 0)
+        signal.signal(signal.SIGPROF, old_prof)
+        signal.signal(signal.SIGALRM, old_alrm)
 
 
 def parse(doc: Any, limit: int = 20, **cf: Any):
